@@ -19,7 +19,7 @@ from . import d_util as U
 PROP = 'C10'
 LEAN_MODULES = ['Femio.Props.C10']
 THEOREMS = ['C10_element_closed', 'C10_element_outward', 'C10_boundary_spec', 'C10_fistr_scan_spec', 'C10_closed',
-            'C10_closed_manifold', 'C10_volume', 'C10_same_face_set', 'C10_fistr_same_keys', 'C10_obj_roundtrip']
+            'C10_closed_manifold', 'C10_volume', 'C10_same_face_set', 'C10_fistr_same_keys', 'C10_fistr_numbers', 'C10_obj_roundtrip']
 PARTIAL = [
     'C10_element_outward / C10_volume: quadrilateral faces are measured by the centroid-fan flux (exact for planar '
     'faces; for warped faces the statement is about that discretisation, which is also what femio\'s "centroid" '
